@@ -547,13 +547,15 @@ def _crash_summary(log):
 # --------------------------------------------------------------------------------------
 # Apalache (symbolic): inductive invariants for small specs over unbounded data
 # --------------------------------------------------------------------------------------
-def apalache(spec_path, inv, init="Init", length=1, cinit=None, outdir=None, timeout=900):
+def apalache(spec_path, inv, init="Init", length=1, cinit=None, outdir=None, timeout=900, next_=None):
     """returns "ok" (no error up to `length`), "violated", or raises InfraError"""
     outdir = outdir or tempfile.mkdtemp(prefix="apa.", dir=OUT if os.path.isdir(OUT) else None)
     cmd = ["timeout", str(timeout), "apalache-mc", "check", "--out-dir=" + outdir, "--init=" + init, "--inv=" + inv,
            "--length=%d" % length]
     if cinit:
         cmd.append("--cinit=" + cinit)
+    if next_:
+        cmd.append("--next=" + next_)
     cmd.append(spec_path)
     p = subprocess.run(cmd, cwd=os.path.dirname(spec_path), stdout=subprocess.PIPE, stderr=subprocess.STDOUT)
     out = p.stdout.decode("utf-8", "replace")
